@@ -445,6 +445,8 @@ pub struct Cfg {
     pub lat: Lat,
     pub page_cache: bool,
     pub fs_seed: u64,
+    /// disk capacity in bytes (None = unlimited)
+    pub capacity: Option<u64>,
 }
 
 impl Default for Cfg {
@@ -455,6 +457,7 @@ impl Default for Cfg {
             lat: Lat::None,
             page_cache: false,
             fs_seed: 1,
+            capacity: None,
         }
     }
 }
@@ -467,6 +470,7 @@ impl Cfg {
             "lat": self.lat.to_json(),
             "page_cache": self.page_cache,
             "fs_seed": self.fs_seed,
+            "capacity": self.capacity,
         })
     }
     pub fn from_json(v: &serde_json::Value) -> Cfg {
@@ -476,6 +480,7 @@ impl Cfg {
             lat: Lat::from_json(&v["lat"]),
             page_cache: v["page_cache"].as_bool().unwrap_or(false),
             fs_seed: v["fs_seed"].as_u64().unwrap_or(1),
+            capacity: v["capacity"].as_u64(),
         }
     }
     pub fn fs_config(&self) -> FsConfig {
@@ -494,6 +499,9 @@ impl Cfg {
         }
         if self.page_cache {
             c.page_cache();
+        }
+        if let Some(cap) = self.capacity {
+            c.capacity(cap);
         }
         c
     }
